@@ -134,8 +134,8 @@ class C13(HistProp):
     names = ["INBOX", "other"]
     skeletons = [sk_number_reuse, sk_delivery_to_idle_unselected_inactive, sk_move_close_then_deliver, sk_delivery_while_a_command_is_executing]
     weights = {"deliver": 16, "store": 8, "store_del": 9, "uid_store": 3, "expunge": 9, "uid_expunge": 3, "move": 4, "copy": 3, "append": 4, "noop": 9, "idle": 5, "advance": 4,
-               "fetch_body": 3, "close": 3, "unselect": 3, "restart": 1, "check": 3, "deliver_stalled": 5}
-    opts = {}
+               "fetch_body": 3, "close": 3, "unselect": 3, "restart": 1, "check": 3, "deliver_stalled": 5, "rename_inbox": 1}
+    opts = {"rename_targets": ["saved", "kept"]}
     pack_limits = [100, 100, 5]
     observer_cadence = [2, 3, 0]
 
